@@ -2,52 +2,54 @@
 // E-ENUM: every microsecond of windows around the unit boundaries x every precision for
 // format_duration; every day 1970..9999 for format_time against in-harness calendar arithmetic
 // (bound to Python datetime by oracles/C18.py); format_size/parse_size agreement; timeval inverses.
+// Round 2: every function also in ordered HISTORIES of two and three calls (fresh thread and accumulated
+// main-thread state), all 256 precisions, 2^k / 10^k boundary arguments for every function, three time
+// zones (two with DST), exception-handling contexts and explicit errno values, defaulted arguments,
+// format -> parse -> format scenarios.  Oracles live in C18_oracle.hh.
 #include <stdint.h>
 #include <sys/time.h>
 #include <time.h>
 
+#include <set>
 #include <string>
 #include <vector>
 
+#include "C18_oracle.hh"
 #include "Strings.hh"
 #include "Time.hh"
 #include "vf.hh"
 
-typedef unsigned __int128 u128;
-typedef __int128 i128;
+using namespace c18;
 
 namespace {
 
-std::string u128s(u128 u) {
-  if (u == 0) return "0";
-  std::string s;
-  while (u) { s.insert(s.begin(), (char)('0' + (int)(u % 10))); u /= 10; }
-  return s;
-}
+typedef std::initializer_list<uint64_t> UL;
+const uint64_t S = 1000000;
+const uint64_t DAY = 86400 * S;
 
 // ---- the set of microsecond counts shared by the duration and timeval sections -------------------
 struct Range { uint64_t lo, hi, step; };  // inclusive
 
 std::vector<Range> usec_ranges(bool thorough) {
-  static const uint64_t S = 1000000;
   static const uint64_t B[4] = {1 * S, 60 * S, 3600 * S, 86400 * S};
   std::vector<Range> v;
   if (thorough) {
     v.push_back({0, 2 * S, 1});
     for (uint64_t b : B) v.push_back({b > 2 * S ? b - 2 * S : 0, b + 2 * S, 1});
   } else {
-    v.push_back({0, 3000, 1});
-    for (uint64_t b : B) v.push_back({b - 3000, b + 3000, 1});
+    v.push_back({0, 6000, 1});
+    for (uint64_t b : B) v.push_back({b - 6000, b + 6000, 1});
     v.push_back({0, 2 * S, 997});
     for (uint64_t b : B) v.push_back({b > 2 * S ? b - 2 * S : 0, b + 2 * S, 997});
   }
   // carries inside the upper fields: x:59:59.9995 and friends, minute/hour/day multiples +- 1
-  for (uint64_t base : {2 * 60 * S, 59 * 60 * S + 59 * S, 2 * 3600 * S, 23 * 3600 * S + 59 * 60 * S + 59 * S, 2 * 86400 * S, 100 * 86400 * S + 23 * 3600 * S + 59 * 60 * S + 59 * S})
+  for (uint64_t base : UL{2 * 60 * S, 59 * 60 * S + 59 * S, 2 * 3600 * S, 23 * 3600 * S + 59 * 60 * S + 59 * S, 2 * 86400 * S, 100 * 86400 * S + 23 * 3600 * S + 59 * 60 * S + 59 * S})
     v.push_back({base + S - 1200, base + S + 1200, 1});
-  for (uint64_t secs : {9ull, 10ull, 69ull, 70ull, 3609ull, 3610ull, 3669ull, 3670ull, 86409ull, 86410ull, 90069ull, 90070ull})
+  for (uint64_t secs : UL{9ull, 10ull, 69ull, 70ull, 3609ull, 3610ull, 3669ull, 3670ull, 86409ull, 86410ull, 90069ull, 90070ull})
     v.push_back({secs * S + 499000, secs * S + 501000, 1});
-  // extremes
-  for (uint64_t c : {1ull << 32, 1ull << 53, 1ull << 63}) v.push_back({c - 1, c + 1, 1});
+  // extremes: 2^k-1, 2^k, 2^k+1 for every k, the top of the range, powers of ten
+  v.push_back({0, 5, 1});
+  for (int k = 2; k <= 63; k++) v.push_back({(1ull << k) - 1, (1ull << k) + 1, 1});
   v.push_back({UINT64_MAX - 2, UINT64_MAX, 1});
   uint64_t p10 = 1;
   for (int k = 0; k <= 19; k++) {
@@ -67,126 +69,27 @@ void for_each_usec(bool thorough, F&& f) {
   }
 }
 
-// ---- format_duration oracle ------------------------------------------------------------------------
-struct DurParse {
-  bool wellformed = false;
-  size_t nfields = 0;
-  bool padded = true;      // every field after the first has exactly two integer digits
-  size_t frac_digits = 0;
-  bool has_point = false;
-  u128 total_scaled = 0;   // value in units of 10^-frac_digits seconds
-  uint64_t last_int = 0;   // integer part of the seconds field
-};
-
-DurParse parse_duration(const std::string& t) {
-  DurParse p;
-  std::vector<std::string> f(1);
-  for (char c : t) {
-    if (c == ':') f.emplace_back();
-    else f.back().push_back(c);
+// 2^k-1, 2^k, 2^k+1 (k = 0..64, modulo 2^64), 10^k-1, 10^k, 10^k+1 (k = 0..19): ascending, distinct
+std::vector<uint64_t> boundary_values() {
+  std::set<uint64_t> s;
+  for (int k = 0; k <= 64; k++) {
+    uint64_t p = k == 64 ? 0 : 1ull << k;
+    s.insert(p - 1); s.insert(p); s.insert(p + 1);
   }
-  if (f.size() > 4) return p;
-  p.nfields = f.size();
-  static const uint64_t unit[4] = {1, 60, 3600, 86400};
-  u128 secs = 0, frac = 0, scale = 1;
-  for (size_t i = 0; i < f.size(); i++) {
-    std::string ip = f[i], fp;
-    bool last = i + 1 == f.size();
-    size_t dot = ip.find('.');
-    if (dot != std::string::npos) {
-      if (!last) return p;
-      fp = ip.substr(dot + 1);
-      ip = ip.substr(0, dot);
-      p.has_point = true;
-      if (fp.empty()) return p;
-    }
-    if (ip.empty() || ip.size() > 20 || fp.size() > 12) return p;
-    for (char c : ip) if (c < '0' || c > '9') return p;
-    for (char c : fp) if (c < '0' || c > '9') return p;
-    if (i > 0 && ip.size() != 2) p.padded = false;
-    u128 v = 0;
-    for (char c : ip) v = v * 10 + (unsigned)(c - '0');
-    secs += v * unit[f.size() - 1 - i];
-    if (last) {
-      p.frac_digits = fp.size();
-      p.last_int = (uint64_t)v;
-      for (char c : fp) { frac = frac * 10 + (unsigned)(c - '0'); scale *= 10; }
-    }
+  uint64_t p10 = 1;
+  for (int k = 0; k <= 19; k++) {
+    s.insert(p10 - 1); s.insert(p10); s.insert(p10 + 1);
+    if (k < 19) p10 *= 10;
   }
-  u128 scaled = secs * scale;
-  p.total_scaled = scaled + frac;
-  p.wellformed = true;
-  return p;
+  s.insert(UINT64_MAX - 1);
+  return std::vector<uint64_t>(s.begin(), s.end());
 }
-
-u128 pow10u(unsigned k) {
-  u128 v = 1;
-  while (k--) v *= 10;
-  return v;
-}
-
-void duration_case(vf::Run& r, uint64_t u, int p) {
-  if (r.wants_desc()) r.desc(vf::fmt("format_duration(%llu, %d)", (unsigned long long)u, p));
-  std::string text, what;
-  std::string oc = vf::outcome([&] { text = phosg::format_duration(u, (int8_t)p); }, &what);
-  r.nontriv();
-  if (oc != "ok") {
-    r.fail("format_duration:throws", [&] { return vf::fmt("format_duration(%llu, %d) threw %s (%s); the statement says it never throws", (unsigned long long)u, p, oc.c_str(), what.c_str()); });
-    return;
-  }
-  DurParse d = parse_duration(text);
-  auto ctx = [&] { return vf::fmt("format_duration(%llu, %d) = ", (unsigned long long)u, p) + vf::show(text); };
-  if (!d.wellformed) { r.fail("format_duration:not-[d:][h:][m:]s[.f]", ctx); return; }
-  bool bad = false;
-  if (!d.padded) { bad = true; r.fail("format_duration:inner-field-not-zero-padded", [&] { return ctx() + ": every field after the first must have exactly two integer digits"; }); }
-  if (p >= 0 && (d.frac_digits != (size_t)p || d.has_point != (p > 0))) { bad = true; r.fail("format_duration:wrong-number-of-fraction-digits", [&] { return ctx() + vf::fmt(": %zu fraction digits printed", d.frac_digits); }); }
-  // evaluates back to the input rounded at the printed precision: |text - u| <= half a unit of the last
-  // printed place (exact integer arithmetic; ties may go either way)
-  unsigned f = (unsigned)d.frac_digits;
-  u128 lhs, rhs, half2;  // compare 2*|lhs-rhs| <= half2 in units of 10^-max(f,6)
-  if (f <= 6) { lhs = d.total_scaled * pow10u(6 - f); rhs = u; half2 = pow10u(6 - f); }
-  else { lhs = d.total_scaled; rhs = (u128)u * pow10u(f - 6); half2 = 1; }
-  u128 diff = lhs > rhs ? lhs - rhs : rhs - lhs;
-  if (diff * 2 > half2) {
-    bad = true;
-    r.fail("format_duration:value-differs", [&] { return ctx() + vf::fmt(" evaluates to %s x 10^-%u s, input is %llu us", u128s(d.total_scaled).c_str(), f, (unsigned long long)u); });
-  }
-  if (!bad) {
-    bool carried = d.nfields > 1 && d.last_int >= 60;
-    r.ok(vf::fmt("%zu field%s%s%s", d.nfields, d.nfields > 1 ? "s" : "", p < 0 ? ", default precision" : p == 0 ? ", no fraction" : ", fraction", carried ? ", seconds field rounded up to 60" : ""));
-  }
-}
-
-// ---- calendar reference ----------------------------------------------------------------------------
-inline bool is_leap(int y) { return (y % 4 == 0) && (y % 100 != 0 || y % 400 == 0); }
-inline int days_in_month(int y, int m) {
-  static const int dm[12] = {31, 28, 31, 30, 31, 30, 31, 31, 30, 31, 30, 31};
-  return (m == 2 && is_leap(y)) ? 29 : dm[m - 1];
-}
-// closed-form civil-from-days (era arithmetic); cross-checked below against the day-by-day odometer
-void civil_from_days(int64_t z, int& y, int& m, int& d) {
-  z += 719468;
-  int64_t era = (z >= 0 ? z : z - 146096) / 146097;
-  unsigned doe = (unsigned)(z - era * 146097);
-  unsigned yoe = (doe - doe / 1460 + doe / 36524 - doe / 146096) / 365;
-  int64_t yy = (int64_t)yoe + era * 400;
-  unsigned doy = doe - (365 * yoe + yoe / 4 - yoe / 100);
-  unsigned mp = (5 * doy + 2) / 153;
-  d = (int)(doy - (153 * mp + 2) / 5 + 1);
-  m = (int)(mp < 10 ? mp + 3 : mp - 9);
-  y = (int)(yy + (m <= 2));
-}
-std::string ref_time(int y, int mo, int d, uint64_t sec_of_day, uint32_t usec) {
-  return vf::fmt("%04d-%02d-%02d %02u:%02u:%02u.%06u", y, mo, d, (unsigned)(sec_of_day / 3600), (unsigned)(sec_of_day / 60 % 60), (unsigned)(sec_of_day % 60), usec);
-}
-
-const int64_t LAST_DAY = 2932896;  // 9999-12-31 as days since 1970-01-01
 
 struct PyFile {
   FILE* f = nullptr;
   void open(vf::Run& r, const char* section) {
     const char* dir = getenv("VF_OUTDIR");
-    if (!dir || r.only >= 0) return;
+    if (!dir || r.only >= 0 || r.upto >= 0) return;
     std::string path = vf::fmt("%s/%s.%llu.dat", dir, section, (unsigned long long)r.shard);
     f = fopen(path.c_str(), r.start > 0 ? "a" : "w");
   }
@@ -196,102 +99,123 @@ struct PyFile {
 
 void time_case(vf::Run& r, uint64_t t, const std::string& want, const char* cls, PyFile* py) {
   if (r.wants_desc()) r.desc(vf::fmt("format_time(%llu)", (unsigned long long)t));
-  std::string got, what;
-  std::string oc = vf::outcome([&] { got = phosg::format_time(t); }, &what);
   r.nontriv();
   if (py) { py->line(t, want); r.counters["lines_for_python_datetime"]++; }
-  if (oc != "ok") r.fail("format_time:throws", [&] { return vf::fmt("format_time(%llu) threw %s (%s)", (unsigned long long)t, oc.c_str(), what.c_str()); });
-  else if (got != want) r.fail("format_time:wrong-text", [&] { return vf::fmt("format_time(%llu) = ", (unsigned long long)t) + vf::show(got) + ", UTC calendar arithmetic gives " + vf::show(want); });
-  else r.ok(cls);
+  report(r, time_eval(t, want, cls));
 }
 
-// ---- sizes -------------------------------------------------------------------------------------------
-const char UNIT_LETTERS[] = "KMGTPE";
-inline u128 unit_of(int k) { return (u128)1 << (10 * k); }  // k=0: bytes
+// ---- call sets for the history sections ------------------------------------------------------------
+struct Ymd { int y, m, d; };
 
-struct SizeText {  // "<int>.<ff> <U>B"
-  bool ok = false;
-  u128 hundredths = 0;
-  int k = 0;
-};
-SizeText parse_unit_text(const std::string& s) {
-  SizeText t;
-  size_t i = 0;
-  u128 ip = 0;
-  size_t nd = 0;
-  while (i < s.size() && s[i] >= '0' && s[i] <= '9') { ip = ip * 10 + (unsigned)(s[i] - '0'); i++; nd++; }
-  if (nd == 0 || i >= s.size() || s[i] != '.') return t;
-  i++;
-  if (i + 2 > s.size() || s[i] < '0' || s[i] > '9' || s[i + 1] < '0' || s[i + 1] > '9') return t;
-  unsigned ff = (unsigned)(s[i] - '0') * 10 + (unsigned)(s[i + 1] - '0');
-  i += 2;
-  if (i + 3 != s.size() || s[i] != ' ' || s[i + 2] != 'B') return t;
-  const char* u = strchr(UNIT_LETTERS, s[i + 1]);
-  if (!u || !s[i + 1]) return t;
-  t.k = (int)(u - UNIT_LETTERS) + 1;
-  t.hundredths = ip * 100 + ff;
-  t.ok = true;
-  return t;
+// days (since the epoch) around which histories of format_time calls are built
+std::vector<int64_t> anchor_days() {
+  static const Ymd A[] = {{1970, 1, 1}, {1999, 12, 31}, {2000, 2, 28}, {2000, 2, 29}, {2000, 3, 1}, {2000, 7, 1}, {2038, 1, 19}, {2100, 2, 28}, {2106, 2, 7}, {9999, 12, 30}};
+  std::vector<int64_t> v;
+  for (const Ymd& a : A) v.push_back(days_from_civil_by_counting(a.y, a.m, a.d));
+  return v;
 }
+const uint64_t OFFS_ALL[] = {0, 1, 999999, 1 * S, 59 * S, 60 * S, 3599 * S, 3600 * S, 43200 * S, 86399 * S, 86399 * S + 999999};
+const uint64_t OFFS_MAIN[] = {0, 1, 1 * S, 43200 * S, 86399 * S, 86399 * S + 999999};
 
-// |hundredths*unit/100 - s| <= 0.005*unit + 2^-23*s + 1   (all scaled by 100, exact)
-inline bool size_close(u128 hundredths, int k, uint64_t s) {
-  u128 a = hundredths * unit_of(k), b = (u128)s * 100;
-  u128 diff = a > b ? a - b : b - a;
-  return diff <= unit_of(k) / 2 + 100 * ((u128)s >> 23) + 100;
-}
-
-void size_case(vf::Run& r, uint64_t s, bool include_bytes) {
-  if (r.wants_desc()) r.desc(vf::fmt("format_size(%llu, %s) and parse_size of the result", (unsigned long long)s, include_bytes ? "true" : "false"));
-  std::string text;
-  std::string oc = vf::outcome([&] { text = phosg::format_size(s, include_bytes); });
-  r.nontriv();
-  auto ctx = [&] { return vf::fmt("format_size(%llu, %s) = ", (unsigned long long)s, include_bytes ? "true" : "false") + vf::show(text); };
-  if (oc != "ok") { r.fail("format_size:throws", [&] { return ctx() + " threw " + oc; }); return; }
-  bool bad = false;
-  std::string unit_part = text;
-  bool has_bytes_prefix = false;
-  if (s < 1024 || include_bytes) {
-    std::string want = std::to_string(s) + " bytes";
-    if (text.compare(0, want.size(), want) != 0) { r.fail("format_size:byte-count-not-exact", ctx); return; }
-    has_bytes_prefix = true;
-    unit_part = text.substr(want.size());
-    if (s < 1024) {
-      if (!unit_part.empty()) { r.fail("format_size:bad-format", ctx); return; }
-    } else {
-      if (unit_part.size() < 4 || unit_part.compare(0, 2, " (") != 0 || unit_part.back() != ')') { r.fail("format_size:bad-format", ctx); return; }
-      unit_part = unit_part.substr(2, unit_part.size() - 3);
+std::vector<Call> time_calls_all() {
+  std::vector<Call> v;
+  std::set<int64_t> seen;
+  for (int64_t a : anchor_days()) {
+    for (int64_t dd : {(int64_t)-1, (int64_t)0, (int64_t)1, (int64_t)365}) {
+      int64_t day = a + dd;
+      if (day < 0 || !seen.insert(day).second) continue;
+      for (uint64_t o : OFFS_ALL) v.push_back(mk(TIME, (uint64_t)day * DAY + o));
     }
   }
-  uint64_t back = 0;
-  oc = vf::outcome([&] { back = phosg::parse_size(text.c_str()); });
-  if (oc != "ok") { r.fail("parse_size:throws", [&] { return ctx() + "; parse_size threw " + oc; }); return; }
-  const char* cls = "bytes form: exact";
-  if (has_bytes_prefix) {
-    // the leading byte count is what parse_size must read back, exactly
-    if (back != s) { bad = true; r.fail("parse_size(format_size):byte-count-differs", [&] { return ctx() + vf::fmt("; parse_size gives %llu", (unsigned long long)back); }); }
+  // instants that are equal modulo 2^31, 2^32 and 2^33 seconds (a truncated cache key makes them alias)
+  for (uint64_t hi : UL{1ull << 31, 1ull << 32, 1ull << 33})
+    for (uint64_t lo : UL{0, 1, 43200, 86399}) v.push_back(mk(TIME, (hi + lo) * S + (lo ? 999999 : 0)));
+  for (uint64_t lo : UL{1, 43200, 86399}) v.push_back(mk(TIME, lo * S + 999999));
+  return v;
+}
+
+std::vector<Call> duration_calls(bool reduced) {
+  std::vector<Call> v;
+  if (reduced) {
+    for (uint64_t u : UL{1ull, 999999ull, 1 * S, 60 * S - 1, 60 * S, 3600 * S, 86400 * S, UINT64_MAX})
+      for (int p : {-1, 0, 6}) v.push_back(mk(DUR, u, p));
+    return v;
   }
-  if (s >= 1024) {
-    SizeText st = parse_unit_text(unit_part);
-    if (!st.ok) { r.fail("format_size:bad-format", ctx); return; }
-    if (!size_close(st.hundredths, st.k, s)) { bad = true; r.fail("format_size:value-differs-beyond-printed-precision", [&] { return ctx() + vf::fmt(" stands for %s/100 x 2^%d bytes", u128s(st.hundredths).c_str(), 10 * st.k); }); }
-    cls = has_bytes_prefix ? "bytes (unit) form: byte count exact, unit part within precision" : "unit form within printed precision";
-    if (!has_bytes_prefix) {
-      u128 exact100 = st.hundredths * unit_of(st.k);  // 100 x the value the text stands for
-      if (exact100 / 100 > (u128)UINT64_MAX) {
-        cls = "unit form: printed value not representable in size_t (round trip not compared)";
-      } else {
-        // parse_size reads the text it is given: within 1 byte (+ double accumulation noise) of what the text says
-        u128 b100 = (u128)back * 100;
-        u128 diff = b100 > exact100 ? b100 - exact100 : exact100 - b100;
-        if (diff > 200 + (exact100 >> 40)) { bad = true; r.fail("parse_size:misreads-text", [&] { return ctx() + vf::fmt("; parse_size gives %llu, the text stands for %s/100 bytes", (unsigned long long)back, u128s(exact100).c_str()); }); }
-        // and the round trip agrees with the original size to the printed precision
-        u128 d2 = back > s ? (u128)(back - s) : (u128)(s - back);
-        if (d2 * 100 > unit_of(st.k) / 2 + 100 * ((u128)s >> 23) + 200) { bad = true; r.fail("parse_size(format_size):differs-beyond-printed-precision", [&] { return ctx() + vf::fmt("; parse_size gives %llu", (unsigned long long)back); }); }
+  static const uint64_t U[] = {0, 1, 999999, 1 * S, 1 * S + 1, 9 * S + 499999, 9 * S + 500000, 60 * S - 1, 60 * S, 60 * S + 1, 65 * S, 69 * S + 500000,
+      3600 * S - 1, 3600 * S, 3600 * S + 1, 3609 * S + 500000, 86400 * S - 1, 86400 * S, 86400 * S + 1, 90061 * S + 1, 1ull << 32, (1ull << 32) + 1, (1ull << 32) + 60 * S, 1ull << 63, UINT64_MAX};
+  for (uint64_t u : U) {
+    for (int p : {-1, 0, 1, 3, 6, 9}) v.push_back(mk(DUR, u, p));
+    v.push_back(mk(DUR_DEF, u));
+  }
+  return v;
+}
+
+std::vector<Call> size_calls(bool reduced) {
+  std::vector<Call> v;
+  if (reduced) {
+    for (uint64_t s : UL{0ull, 1023ull, 1024ull, 3ull << 19, 1ull << 30, (1ull << 50) - 1, 3ull << 59, UINT64_MAX})
+      for (int ib : {0, 1}) v.push_back(mk(SIZE, s, ib));
+    for (const char* m : {"1", "1.5", "1023.99"})
+      for (int k : {0, 1, 6}) v.push_back(mkparse(m, 1, k, false, k ? "B" : ""));
+    return v;
+  }
+  static const uint64_t SZ[] = {0, 1, 1023, 1024, 1025, (1ull << 20) - 1, 1ull << 20, 3ull << 19, (1ull << 30) - 1, 1ull << 30, (1ull << 40) - 1, 1ull << 40,
+      (1ull << 50) - 1, 1ull << 50, (1ull << 60) - 1, 1ull << 60, 3ull << 59, 1ull << 63, UINT64_MAX, (1ull << 32) + 1024, (1ull << 32) + (3ull << 19)};
+  for (uint64_t s : SZ)
+    for (int ib : {0, 1, 2}) v.push_back(mk(SIZE, s, ib));
+  static const char* M[] = {"0", "1", "1023", "1.5", "2.25", "0.01", "15.99", "1023.99", "1.000001"};
+  for (const char* m : M) {
+    for (int k = 0; k <= 6; k++) v.push_back(mkparse(m, k % 3, k, k % 2 == 1, k == 0 ? "" : (k % 2 ? "b" : "B")));
+  }
+  v.push_back(mkparse("1536", 1, 0, false, "bytes (1.50 KB)"));
+  v.push_back(mkparse("18446744073709551615", 0, 0, false, ""));
+  v.push_back(mkparse("18446744073709551615", 1, 0, false, "bytes (16.00 EB)"));
+  return v;
+}
+
+// a few calls of EVERY function of Time.hh plus format_size/parse_size: for cross-function histories
+std::vector<Call> mixed_calls() {
+  std::vector<Call> v;
+  v.push_back(mk(DUR, 999999, -1)); v.push_back(mk(DUR, 1 * S, 6)); v.push_back(mk(DUR, 60 * S - 1, 0)); v.push_back(mk(DUR, 60 * S, -1));
+  v.push_back(mk(DUR, 3600 * S - 1, 3)); v.push_back(mk(DUR, 3600 * S, -1)); v.push_back(mk(DUR, 86400 * S, 6)); v.push_back(mk(DUR, UINT64_MAX, -1));
+  v.push_back(mk(DUR_DEF, 65 * S)); v.push_back(mk(DUR_DEF, 90061 * S + 1));
+  for (uint64_t t : UL{0ull, 946684799999999ull, 946684800000000ull, 951782400000000ull + 43200 * S, 2147483648ull * S, 4102444800000000ull, 253402300799999999ull}) v.push_back(mk(TIME, t));
+  v.push_back(mk(SIZE, 0, 0)); v.push_back(mk(SIZE, 1023, 1)); v.push_back(mk(SIZE, 1024, 0)); v.push_back(mk(SIZE, 1536, 1)); v.push_back(mk(SIZE, 1ull << 20, 0));
+  v.push_back(mk(SIZE, 3ull << 29, 1)); v.push_back(mk(SIZE, (1ull << 40) - 1, 0)); v.push_back(mk(SIZE, 1ull << 50, 1)); v.push_back(mk(SIZE, 3ull << 59, 1));
+  v.push_back(mk(SIZE, UINT64_MAX, 0)); v.push_back(mk(SIZE, 2048, 2));
+  v.push_back(mkparse("0", 0, 0, false, "")); v.push_back(mkparse("1023", 0, 0, false, "")); v.push_back(mkparse("1", 1, 1, false, "")); v.push_back(mkparse("1.5", 0, 1, false, "B"));
+  v.push_back(mkparse("2.25", 0, 2, true, "")); v.push_back(mkparse("3", 0, 3, true, "")); v.push_back(mkparse("0.5", 1, 4, false, "B")); v.push_back(mkparse("7", 0, 5, false, ""));
+  v.push_back(mkparse("15.99", 1, 6, false, "B")); v.push_back(mkparse("1536", 1, 0, false, "bytes (1.50 KB)"));
+  for (uint64_t u : UL{0ull, 999999ull, 1 * S, (1ull << 63) - 1, UINT64_MAX}) v.push_back(mk(U2TV, u));
+  v.push_back(mk(TV2U, 0, 0)); v.push_back(mk(TV2U, 0, 999999)); v.push_back(mk(TV2U, 1, 0)); v.push_back(mk(TV2U, 2147483647, 999999)); v.push_back(mk(TV2U, 9223372036853ull, 999999));
+  v.push_back(mk(NATURAL, 0)); v.push_back(mk(NATURAL, 946684800000000ull)); v.push_back(mk(NATURAL_TV, 951782400, 123456)); v.push_back(mk(NATURAL_NOW)); v.push_back(mk(NOW));
+  return v;
+}
+
+const std::vector<Ctx> FRESH_THEN_MAIN = {CTX_FRESH_THREAD, CTX_MAIN};
+const std::vector<Ctx> MAIN_ONLY = {CTX_MAIN};
+#define TRIPLE_CTX(r) ((r).thorough() ? "fresh thread, then main thread" : "main thread only")
+
+// all ordered pairs (A, B) of the set, each executed as the history A, B, A
+void pairs_aba(vf::Run& r, const std::vector<Call>& calls, int tz_of_first_mod = 0) {
+  for (size_t i = 0; i < calls.size(); i++) {
+    for (size_t j = 0; j < calls.size(); j++) {
+      if (!r.take()) continue;
+      if (tz_of_first_mod) set_tz((int)(i % (size_t)tz_of_first_mod));
+      history_case(r, History{&calls[i], &calls[j], &calls[i]}, FRESH_THEN_MAIN, "history A,B,A: all six results as the reference");
+    }
+  }
+}
+// all ordered triples of the set
+void triples(vf::Run& r, const std::vector<Call>& calls, size_t lo, size_t hi) {
+  for (size_t i = lo; i < hi; i++)
+    for (size_t j = lo; j < hi; j++)
+      for (size_t k = lo; k < hi; k++) {
+        if (!r.take()) continue;
+        // quick: main thread only (a thread per case is the dominant cost on a loaded machine); thorough: both
+        if (r.thorough()) history_case(r, History{&calls[i], &calls[j], &calls[k]}, FRESH_THEN_MAIN, "history A,B,C: all six results as the reference");
+        else history_case(r, History{&calls[i], &calls[j], &calls[k]}, MAIN_ONLY, "history A,B,C on the main thread: all three results as the reference");
       }
-    }
-  }
-  if (!bad) r.ok(cls);
 }
 
 }  // namespace
@@ -303,26 +227,51 @@ VF_SECTION(duration, 16, 16, 120) {
   for_each_usec(r.thorough(), [&](uint64_t u) {
     for (int p = -1; p <= 6; p++) {
       if (!r.take()) continue;
-      duration_case(r, u, p);
+      if (r.wants_desc()) r.desc(vf::fmt("format_duration(%llu, %d)", (unsigned long long)u, p));
+      r.nontriv();
+      report(r, duration_eval(u, p));
     }
   });
-  r.bound = r.thorough() ? "format_duration: every microsecond of [0,2s] and of [B-2s,B+2s] for B in {1s,60s,3600s,86400s}, carry windows, {2^32,2^53,2^63}+-1, 2^64-3..2^64-1, 10^k+-1 (k<=19) x precision -1..6"
-                         : "format_duration: every microsecond of [0,3000us] and [B-3000us,B+3000us], every 997th microsecond of [0,2s] and [B-2s,B+2s] for B in {1s,60s,3600s,86400s}, carry windows, {2^32,2^53,2^63}+-1, 2^64-3..2^64-1, 10^k+-1 (k<=19) x precision -1..6";
+  r.bound = r.thorough() ? "format_duration: every microsecond of [0,2s] and of [B-2s,B+2s] for B in {1s,60s,3600s,86400s}, carry windows, 2^k-1..2^k+1 (k<=63), 2^64-3..2^64-1, 10^k+-1 (k<=19) x precision -1..6"
+                         : "format_duration: every microsecond of [0,6000us] and [B-6000us,B+6000us], every 997th microsecond of [0,2s] and [B-2s,B+2s] for B in {1s,60s,3600s,86400s}, carry windows, 2^k-1..2^k+1 (k<=63), 2^64-3..2^64-1, 10^k+-1 (k<=19) x precision -1..6";
 }
 
-// format_time must render UTC whatever the process time zone is: run with a zone 5:30 east of UTC (POSIX
-// TZ string, needs no tzdata) so that a local-time conversion cannot hide behind a UTC environment
-static void own_timezone() {
-  setenv("TZ", "VFT-05:30", 1);
-  tzset();
+// every int8_t precision (the parameter type) on the values where the text changes shape
+VF_SECTION(duration_allp, 16, 16, 120) {
+  r.note("format_duration");
+  std::vector<uint64_t> us;
+  uint64_t w = r.thorough() ? 1500 : 40;
+  us.push_back(0);
+  for (uint64_t b : UL{1 * S, 60 * S, 3600 * S, 86400 * S})
+    for (uint64_t u = b - w; u <= b + w; u++) us.push_back(u);
+  for (uint64_t secs : UL{9ull, 69ull, 3609ull, 3669ull, 86409ull, 90069ull, 59ull, 119ull, 3599ull, 7199ull, 86399ull, 172799ull})
+    for (uint64_t u = secs * S + 499990; u <= secs * S + 500010; u++) us.push_back(u);
+  for (uint64_t secs : UL{59ull, 119ull, 3599ull, 7199ull, 86399ull, 172799ull})
+    for (uint64_t u = secs * S + 999990; u <= secs * S + 999999; u++) us.push_back(u);
+  for (uint64_t b : boundary_values()) us.push_back(b);
+  for (uint64_t u : us) {
+    for (int p = -128; p <= 127; p++) {
+      if (!r.take()) continue;
+      if (r.wants_desc()) r.desc(vf::fmt("format_duration(%llu, %d)", (unsigned long long)u, p));
+      r.nontriv();
+      report(r, duration_eval(u, p));
+    }
+    // the second argument left out
+    if (r.take()) {
+      if (r.wants_desc()) r.desc(vf::fmt("format_duration(%llu)", (unsigned long long)u));
+      r.nontriv();
+      report(r, duration_eval(u, -1, true));
+    }
+  }
+  r.bound = vf::fmt("format_duration on %zu durations (B+-%lluus for B in {1s,60s,3600s,86400s}, x.5 s and x.99999 s carry points, 2^k-1..2^k+1 for k<=64, 10^k+-1) x every precision -128..127 and the defaulted argument", us.size(), (unsigned long long)w);
 }
 
 VF_SECTION(time_days, 16, 16, 120) {
   r.note("format_time");
-  own_timezone();
   PyFile py;
   py.open(r, "time_days");
   int y = 1970, m = 1, d = 1;
+  set_tz(y % 3);
   for (int64_t day = 0; day <= LAST_DAY; day++) {
     // three instants per day; building the reference is cheap, so it is done for skipped cases too
     static const uint64_t sod[3] = {0, 86399, 45296};
@@ -330,35 +279,33 @@ VF_SECTION(time_days, 16, 16, 120) {
     bool special = (m == 1 && d == 1) || (m == 2 && d >= 28) || (m == 3 && d == 1) || (m == 12 && d == 31);
     for (int k = 0; k < 3; k++) {
       if (r.take()) {
-        int cy, cm, cd;
+        int64_t cy;
+        int cm, cd;
         civil_from_days(day, cy, cm, cd);
         uint64_t t = ((uint64_t)day * 86400 + sod[k]) * 1000000 + us[k];
-        if (cy != y || cm != m || cd != d) r.fail("harness:calendar-references-disagree", [&] { return vf::fmt("day %lld: odometer %d-%d-%d, closed form %d-%d-%d", (long long)day, y, m, d, cy, cm, cd); });
+        if (cy != y || cm != m || cd != d) r.fail("harness:calendar-references-disagree", [&] { return vf::fmt("day %lld: odometer %d-%d-%d, closed form %lld-%d-%d", (long long)day, y, m, d, (long long)cy, cm, cd); });
         bool topy = special || day % 31 == 0;
         time_case(r, t, ref_time(y, m, d, sod[k], us[k]), special ? (is_leap(y) ? "month/year boundary day, leap year" : "month/year boundary day, common year") : (k == 0 ? "midnight" : k == 1 ? "23:59:59.999999" : "12:34:56.789012"), topy ? &py : nullptr);
       }
     }
-    if (++d > days_in_month(y, m)) { d = 1; if (++m > 12) { m = 1; y++; } }
+    if (++d > days_in_month(y, m)) { d = 1; if (++m > 12) { m = 1; y++; set_tz(y % 3); } }
   }
   if (!(y == 10000 && m == 1 && d == 1)) r.fail("harness:calendar-odometer-end", [&] { return vf::fmt("odometer ended at %d-%d-%d", y, m, d); });
-  r.bound = "format_time at 00:00:00.000000, 12:34:56.789012 and 23:59:59.999999 of every day 1970-01-01 .. 9999-12-31 (2932897 days)";
+  r.bound = "format_time at 00:00:00.000000, 12:34:56.789012 and 23:59:59.999999 of every day 1970-01-01 .. 9999-12-31 (2932897 days); process time zone = year mod 3 of {UTC+5:30, UTC-8 with northern DST, UTC+10 with southern DST}";
 }
 
-VF_SECTION(time_seconds, 4, 4, 120) {
+VF_SECTION(time_seconds, 6, 6, 120) {
   r.note("format_time");
-  own_timezone();
   PyFile py;
   py.open(r, "time_seconds");
-  // every second of four days: the epoch day, a leap day in a year divisible by 400, the last of
-  // February in a century year that is not leap, the last representable 4-digit-year day
-  struct D { int y, m, d; };
-  static const D days[4] = {{1970, 1, 1}, {2000, 2, 29}, {2100, 2, 28}, {9999, 12, 31}};
+  // every second of six days: the epoch day, a leap day in a year divisible by 400, the last of February in a
+  // century year that is not leap, the last representable 4-digit-year day, a northern-summer and a
+  // southern-summer day under the zones that have DST then
+  struct D { int y, m, d, tz; };
+  static const D days[6] = {{1970, 1, 1, 0}, {2000, 2, 29, 0}, {2100, 2, 28, 0}, {9999, 12, 31, 0}, {2024, 7, 1, 1}, {2024, 1, 15, 2}};
   for (const D& dd : days) {
-    // days since epoch by counting (independent of civil_from_days)
-    int64_t n = 0;
-    for (int yy = 1970; yy < dd.y; yy++) n += is_leap(yy) ? 366 : 365;
-    for (int mm = 1; mm < dd.m; mm++) n += days_in_month(dd.y, mm);
-    n += dd.d - 1;
+    int64_t n = days_from_civil_by_counting(dd.y, dd.m, dd.d);
+    set_tz(dd.tz);
     for (uint64_t s = 0; s < 86400; s++) {
       if (!r.take()) continue;
       uint32_t us = (uint32_t)((s * 7919 + 1) % 1000000);
@@ -368,7 +315,7 @@ VF_SECTION(time_seconds, 4, 4, 120) {
       time_case(r, t, ref_time(dd.y, dd.m, dd.d, s, us), s % 60 == 59 ? "second 59 with .999999" : s % 60 == 0 ? "second 00 with .000000" : "other second", (s % 61 == 0 || s % 60 == 59) ? &py : nullptr);
     }
   }
-  r.bound = "format_time at every second of 1970-01-01, 2000-02-29, 2100-02-28 and 9999-12-31 (345600 instants, second 59 with .999999, second 00 with .000000)";
+  r.bound = "format_time at every second of 1970-01-01, 2000-02-29, 2100-02-28, 9999-12-31 (UTC+5:30), 2024-07-01 (northern DST zone) and 2024-01-15 (southern DST zone): 518400 instants, second 59 with .999999, second 00 with .000000";
 }
 
 VF_SECTION(size, 4, 4, 120) {
@@ -389,22 +336,30 @@ VF_SECTION(size, 4, 4, 120) {
   // rounding boundaries of the two printed decimals and the top of the range
   for (int k = 1; k <= 6; k++) {
     uint64_t u = (uint64_t)1 << (10 * k);
-    for (uint64_t c : {u + u / 200, u + u / 200 - 1, u + u / 200 + 1, 1023 * u + u / 2, 1023 * u + u - u / 200, 1023 * u + u - u / 200 - 1}) sizes.push_back(c);
+    for (uint64_t c : UL{u + u / 200, u + u / 200 - 1, u + u / 200 + 1, 1023 * u + u / 2, 1023 * u + u - u / 200, 1023 * u + u - u / 200 - 1}) {
+      if (k == 6 && c < u) continue;  // 1023 EB does not exist
+      sizes.push_back(c);
+    }
   }
   for (uint64_t c : std::initializer_list<uint64_t>{1ull << 63, (1ull << 63) - 1, (1ull << 63) + 1, UINT64_MAX - 1, UINT64_MAX, 15ull << 60, UINT64_MAX - (1ull << 52) + 1}) sizes.push_back(c);
+  // every sixteenth of an exabyte (the top unit has only 16 whole values) and 2^k-1, 2^k, 2^k+1, 10^k+-1
+  for (uint64_t j = 16; j <= 255; j++) { sizes.push_back(j << 56); sizes.push_back((j << 56) + (1ull << 55) + 12345); }
+  for (uint64_t b : boundary_values()) sizes.push_back(b);
   for (uint64_t s : sizes) {
-    for (int ib = 0; ib < 2; ib++) {
+    for (int ib = 0; ib < 3; ib++) {
       if (!r.take()) continue;
-      size_case(r, s, ib != 0);
+      if (r.wants_desc()) r.desc(ib == 2 ? vf::fmt("format_size(%llu), parse_size of the result, format_size of that", (unsigned long long)s) : vf::fmt("format_size(%llu, %s), parse_size of the result, format_size of that", (unsigned long long)s, ib ? "true" : "false"));
+      r.nontriv();
+      report(r, size_eval(s, ib));
     }
   }
   // parse_size on its own: mantissa x unit letter x case x optional space x optional B
   r.note("parse_size");
-  struct Mant { const char* text; unsigned hundredths; };
-  static const Mant mants[] = {{"0", 0}, {"1", 100}, {"3", 300}, {"7", 700}, {"10", 1000}, {"15", 1500}, {"999", 99900}, {"1023", 102300}, {"1024", 102400},
-      {"0.5", 50}, {"1.5", 150}, {"2.25", 225}, {"12.75", 1275}, {"1.05", 105}, {"100.01", 10001}, {"0.01", 1}, {"7.99", 799}};
-  static const char* suffixes[] = {"", "B", "b", "bytes"};
-  for (const Mant& mt : mants) {
+  static const char* mants[] = {"0", "1", "3", "7", "10", "15", "999", "1023", "1024", "007", "4294967295", "4294967296", "18446744073709551615",
+      "0.5", "1.5", "2.25", "12.75", "1.05", "100.01", "0.01", "7.99", "0.0", "1.00", "15.99", "1.005", "0.999", "2.0625", "1.000001", "0.999999", "3.141592653589", "0.3333333333333333333", "1.0000000000000000001",
+      "", ".5", "1.", "."};
+  static const char* suffixes[] = {"", "B", "b", "bytes", "B ", "Bx"};
+  for (const char* mt : mants) {
     for (int k = 0; k <= 6; k++) {
       for (int lower = 0; lower < 2; lower++) {
         if (k == 0 && lower) continue;
@@ -412,29 +367,26 @@ VF_SECTION(size, 4, 4, 120) {
           for (const char* suf : suffixes) {
             if (k > 0 && !strcmp(suf, "bytes")) continue;
             if (!r.take()) continue;
-            std::string text = mt.text;
-            text.append((size_t)space, ' ');
-            if (k > 0) text.push_back(lower ? (char)(UNIT_LETTERS[k - 1] + 32) : UNIT_LETTERS[k - 1]);
-            text += suf;
-            if (r.wants_desc()) r.desc("parse_size(" + vf::show(text) + ")");
-            u128 exact100 = (u128)mt.hundredths * unit_of(k);
-            uint64_t got = 0;
-            std::string oc = vf::outcome([&] { got = phosg::parse_size(text.c_str()); });
+            ParseSpec sp = make_spec(mt, space, k, lower != 0, suf);
+            if (r.wants_desc()) r.desc("parse_size(" + vf::show(sp.text) + ")");
             r.nontriv();
-            if (oc != "ok") { r.fail("parse_size:throws", [&] { return "parse_size(" + vf::show(text) + ") threw " + oc; }); continue; }
-            if (exact100 / 100 > (u128)UINT64_MAX) { r.ok("parse_size: value not representable in size_t (not compared)"); continue; }
-            u128 g100 = (u128)got * 100;
-            u128 diff = g100 > exact100 ? g100 - exact100 : exact100 - g100;
-            bool integral = mt.hundredths % 100 == 0;
-            if (integral ? diff != 0 : diff > 200 + (exact100 >> 40))
-              r.fail("parse_size:wrong-value", [&] { return "parse_size(" + vf::show(text) + vf::fmt(") = %llu, the text stands for %s/100 bytes", (unsigned long long)got, u128s(exact100).c_str()); });
-            else r.ok(integral ? "parse_size: integer mantissa exact" : "parse_size: fractional mantissa within 1 byte");
+            report(r, parse_eval(sp));
           }
         }
       }
     }
   }
-  r.bound = "format_size(s, false/true) and parse_size of the result for s in 0..5000, 1024^k+{-1,0,1} (k=1..6), j*1024^k/100 (j=1..102400 step 7, k=0..6, below 2^64), rounding boundaries, 2^63+-1, 2^64-2, 2^64-1; parse_size on 17 mantissas x {none,K,M,G,T,P,E} x case x 0..2 spaces x {'',B,b,bytes}";
+  // decimal texts of 2^k-1, 2^k, 2^k+1, 10^k+-1 without a unit and with every unit (compared when representable)
+  for (uint64_t b : boundary_values()) {
+    for (int k = 0; k <= 6; k++) {
+      if (!r.take()) continue;
+      ParseSpec sp = make_spec(std::to_string(b), k % 2, k, false, k % 3 == 0 ? "" : "B");
+      if (r.wants_desc()) r.desc("parse_size(" + vf::show(sp.text) + ")");
+      r.nontriv();
+      report(r, parse_eval(sp));
+    }
+  }
+  r.bound = "format_size(s, false/true/defaulted), parse_size of the result and format_size of that for s in 0..5000, 1024^k+{-1,0,1} (k=1..6), j*1024^k/100 (j=1..102400 step 7, k=0..6, below 2^64), rounding boundaries, every 1/16 EB, 2^k-1..2^k+1 (k<=64), 10^k+-1; parse_size on 36 mantissas (up to 19 fraction digits, 4 outside the grammar) x {none,K,M,G,T,P,E} x case x 0..2 spaces x {'',B,b,bytes,'B ',Bx} and on the decimal text of every boundary value x unit";
 }
 
 VF_SECTION(timeval, 4, 16, 120) {
@@ -442,42 +394,154 @@ VF_SECTION(timeval, 4, 16, 120) {
   for_each_usec(r.thorough(), [&](uint64_t u) {
     if (!r.take()) return;
     if (r.wants_desc()) r.desc(vf::fmt("usecs_to_timeval(%llu) and timeval_to_usecs of the result", (unsigned long long)u));
-    struct timeval tv = phosg::usecs_to_timeval(u);
     r.nontriv();
-    bool bad = false;
-    if (tv.tv_usec < 0 || tv.tv_usec >= 1000000 || (uint64_t)tv.tv_sec != u / 1000000 || (uint64_t)tv.tv_usec != u % 1000000) {
-      bad = true;
-      r.fail("usecs_to_timeval:wrong-value", [&] { return vf::fmt("usecs_to_timeval(%llu) = {%lld, %lld}", (unsigned long long)u, (long long)tv.tv_sec, (long long)tv.tv_usec); });
-    }
-    if (u >= (1ull << 63)) {
-      // tv_sec * 1000000 exceeds the signed 64-bit range: executed, value not compared
-      (void)phosg::timeval_to_usecs(tv);
-      if (!bad) r.ok("usecs >= 2^63: forward exact, inverse not compared");
-      return;
-    }
-    uint64_t back = phosg::timeval_to_usecs(tv);
-    if (back != u) { bad = true; r.fail("timeval_to_usecs:not-inverse", [&] { return vf::fmt("timeval_to_usecs(usecs_to_timeval(%llu)) = %llu", (unsigned long long)u, (unsigned long long)back); }); }
-    if (!bad) r.ok(u % 1000000 == 0 ? "whole second" : "with microseconds");
+    report(r, u2tv_eval(u));
   });
   r.note("timeval_to_usecs");
-  static const int64_t secs[] = {0, 1, 59, 60, 3599, 3600, 86399, 86400, 2147483647ll, 2147483648ll, 4294967295ll, 4294967296ll, 253402300799ll, 9223372036853ll, 9223372036854ll};
-  static const int64_t usecs[] = {0, 1, 9, 10, 499999, 500000, 999998, 999999};
+  // (sec, usec) pairs: boundary seconds (2^k-1, 2^k, 2^k+1 while sec*10^6 stays below 2^63) x boundary microseconds
+  std::vector<int64_t> secs = {0, 1, 59, 60, 3599, 3600, 86399, 86400, 253402300799ll, 9223372036853ll, 9223372036854ll};
+  for (int k = 1; k <= 43; k++) for (int64_t dlt : {-1, 0, 1}) { int64_t v = ((int64_t)1 << k) + dlt; if (v <= 9223372036853ll) secs.push_back(v); }
+  std::vector<int64_t> usecs = {0, 1, 9, 10, 499999, 500000, 999998, 999999};
+  for (int k = 1; k <= 19; k++) for (int64_t dlt : {-1, 0, 1}) { int64_t v = ((int64_t)1 << k) + dlt; if (v <= 999999) usecs.push_back(v); }
   for (int64_t s : secs) {
     for (int64_t us : usecs) {
       if (!r.take()) continue;
-      if (r.wants_desc()) r.desc(vf::fmt("timeval_to_usecs({%lld, %lld}) and usecs_to_timeval of the result", (long long)s, (long long)us));
+      if (s == 9223372036854ll && us > 775807) { r.ok("sec*10^6+usec >= 2^63: not defined, not executed"); continue; }
+      if (r.wants_desc()) r.desc(vf::fmt("timeval_to_usecs({%lld, %lld}), usecs_to_timeval of the result, format_time of it", (long long)s, (long long)us));
+      r.nontriv();
+      Res res = tv2u_eval(s, us);
+      // cooperating sites: a (sec, usec) pair converted and formatted must show the date of sec and the digits of usec
       struct timeval tv;
       tv.tv_sec = s;
       tv.tv_usec = us;
       uint64_t u = phosg::timeval_to_usecs(tv);
-      struct timeval tb = phosg::usecs_to_timeval(u);
-      r.nontriv();
-      if (u != (uint64_t)s * 1000000 + (uint64_t)us) r.fail("timeval_to_usecs:wrong-value", [&] { return vf::fmt("timeval_to_usecs({%lld, %lld}) = %llu", (long long)s, (long long)us, (unsigned long long)u); });
-      else if (tb.tv_sec != s || tb.tv_usec != us) r.fail("usecs_to_timeval:not-inverse", [&] { return vf::fmt("usecs_to_timeval(timeval_to_usecs({%lld, %lld})) = {%lld, %lld}", (long long)s, (long long)us, (long long)tb.tv_sec, (long long)tb.tv_usec); });
-      else r.ok("timeval -> usecs -> timeval");
+      int64_t y;
+      int mo, d;
+      civil_by_counting(s / 86400, y, mo, d);
+      std::string want = ref_time(y, mo, d, (uint64_t)(s % 86400), (uint32_t)us);
+      std::string got;
+      std::string oc = vf::outcome([&] { got = phosg::format_time(u); });
+      if (oc != "ok" || got != want) res.fail("format_time(timeval_to_usecs):wrong-text", vf::fmt("format_time(timeval_to_usecs({%lld, %lld})) = ", (long long)s, (long long)us) + (oc == "ok" ? vf::show(got) : oc) + ", the calendar gives " + vf::show(want));
+      report(r, res);
     }
   }
-  r.bound = "usecs_to_timeval/timeval_to_usecs on the same microsecond set as format_duration (inverse compared below 2^63) and on 15 x 8 normalised (sec, usec) boundary pairs";
+  r.bound = vf::fmt("usecs_to_timeval/timeval_to_usecs on the same microsecond set as format_duration (inverse compared below 2^63) and on %zu x %zu normalised (sec, usec) boundary pairs (2^k-1..2^k+1), each also through format_time", secs.size(), usecs.size());
+}
+
+// 2^k-1, 2^k, 2^k+1 and 10^k+-1 as microseconds and as seconds: format_time over the whole uint64_t range
+VF_SECTION(time_boundaries, 4, 4, 120) {
+  r.note("format_time");
+  std::vector<uint64_t> ts;
+  for (uint64_t b : boundary_values()) {
+    ts.push_back(b);
+    if (b <= UINT64_MAX / S) { ts.push_back(b * S); ts.push_back(b * S + 999999); if (b) ts.push_back(b * S - 1); }
+    if (b <= UINT64_MAX / DAY) { ts.push_back(b * DAY); if (b) ts.push_back(b * DAY - 1); }
+  }
+  // the first microsecond of years 10000, 10001, 99999, 100000, 400000, 586524 (the last year that starts inside
+  // uint64_t microseconds) and the microsecond before
+  for (int64_t y : {10000ll, 10001ll, 99999ll, 100000ll, 400000ll, 586524ll}) {
+    // days from 1970-01-01 to y-01-01 by the leap rule in closed form
+    auto leaps_before = [](int64_t yy) { yy--; return yy / 4 - yy / 100 + yy / 400; };
+    int64_t n = (y - 1970) * 365 + (leaps_before(y) - leaps_before(1970));
+    ts.push_back((uint64_t)n * DAY);
+    ts.push_back((uint64_t)n * DAY - 1);
+  }
+  for (int tz = 0; tz < 5; tz++) {
+    for (uint64_t t : ts) {
+      if (!r.take()) continue;
+      set_tz(tz);
+      if (r.wants_desc()) r.desc(vf::fmt("format_time(%llu) with TZ=%s", (unsigned long long)t, TZS[tz]));
+      r.nontriv();
+      report(r, time_eval(t));
+    }
+  }
+  r.bound = vf::fmt("format_time on %zu timestamps: b, b seconds (+-1us, +.999999) and b days (-1us) for b in 2^k-1..2^k+1 (k<=64), 10^k+-1 (k<=19), first microsecond (and the one before) of years 10000, 10001, 99999, 100000, 400000, 586524, x 5 process time zones", ts.size());
+}
+
+// ---- histories -----------------------------------------------------------------------------------------
+VF_SECTION(hist_time, 16, 16, 180) {
+  r.note("format_time");
+  std::vector<Call> all = time_calls_all();
+  // (1) every ordered pair (A, B) executed as A, B, A; process time zone = index of A mod 3
+  pairs_aba(r, all, 3);
+  // (2) every ordered triple inside each three-day cluster D-1, D, D+1 (thorough: D-2 .. D+2)
+  set_tz(1);
+  int64_t reach = r.thorough() ? 2 : 1;
+  size_t ntr = 0;
+  for (int64_t a : anchor_days()) {
+    std::vector<Call> cl;
+    for (int64_t dd = -reach; dd <= reach; dd++) {
+      if (a + dd < 0) continue;
+      for (uint64_t o : OFFS_MAIN) cl.push_back(mk(TIME, (uint64_t)(a + dd) * DAY + o));
+    }
+    triples(r, cl, 0, cl.size());
+    ntr += cl.size() * cl.size() * cl.size();
+    // (3) every ordered triple of the eleven instants of day D (second, minute, hour boundaries)
+    std::vector<Call> in;
+    for (uint64_t o : OFFS_ALL) in.push_back(mk(TIME, (uint64_t)a * DAY + o));
+    triples(r, in, 0, in.size());
+    ntr += in.size() * in.size() * in.size();
+  }
+  r.bound = vf::fmt("format_time histories: all %zu^2 ordered pairs (as A,B,A; on a fresh thread and again on the main thread) of {D-1,D,D+1,D+365} x {0,1us,.999999s,1s,59s,60s,3599s,3600s,12h,86399s,86399.999999s} for D in 1970-01-01, 1999-12-31, 2000-02-28, 2000-02-29, 2000-03-01, 2000-07-01, 2038-01-19, 2100-02-28, 2106-02-07, 9999-12-30, plus 15 instants equal modulo 2^31/2^32/2^33 s; %zu ordered triples inside the clusters D-%lld..D+%lld x 6 instants and inside day D x 11 instants (%s)", all.size(), ntr, (long long)reach, (long long)reach, TRIPLE_CTX(r));
+}
+
+VF_SECTION(hist_duration, 16, 16, 180) {
+  r.note("format_duration");
+  std::vector<Call> all = duration_calls(false), red = duration_calls(true);
+  pairs_aba(r, all);
+  triples(r, red, 0, red.size());
+  r.bound = vf::fmt("format_duration histories: all %zu^2 ordered pairs (as A,B,A; fresh thread, then main thread) of 25 durations at every magnitude-class boundary (and three that alias modulo 2^32) x precision {-1,0,1,3,6,9,defaulted}; all %zu^3 ordered triples of 8 durations x {-1,0,6} (%s)", all.size(), red.size(), TRIPLE_CTX(r));
+}
+
+VF_SECTION(hist_size, 16, 16, 180) {
+  r.note("format_size/parse_size");
+  std::vector<Call> all = size_calls(false), red = size_calls(true);
+  pairs_aba(r, all);
+  triples(r, red, 0, red.size());
+  r.bound = vf::fmt("format_size/parse_size histories: all %zu^2 ordered pairs (as A,B,A; fresh thread, then main thread) of 21 sizes (two aliasing modulo 2^32) x include_bytes {false,true,defaulted} and 66 size texts of every unit; all %zu^3 ordered triples of a reduced set (%s)", all.size(), red.size(), TRIPLE_CTX(r));
+}
+
+// histories that mix ALL functions of the property (and the uncompared neighbours now(), format_time_natural)
+VF_SECTION(hist_mixed, 16, 16, 180) {
+  r.note("mixed");
+  set_tz(1);
+  std::vector<Call> all = mixed_calls();
+  pairs_aba(r, all);
+  triples(r, all, 0, all.size());
+  // every ordered pair with each call on its own thread (state shared between threads)
+  static const std::vector<Ctx> each = {CTX_THREAD_EACH};
+  for (size_t i = 0; i < all.size(); i++)
+    for (size_t j = 0; j < all.size(); j++) {
+      if (!r.take()) continue;
+      history_case(r, History{&all[i], &all[j], &all[i]}, each, "history A,B,A with every call on its own thread: results as the reference");
+    }
+  r.bound = vf::fmt("cross-function histories over %zu calls (format_duration 10, format_time 7, format_size 11, parse_size 10, usecs_to_timeval 5, timeval_to_usecs 5, uncompared: format_time_natural 4, now 1): all ordered pairs (as A,B,A; fresh thread, then main thread) and all ordered triples (%s); all ordered pairs with every call on its own thread", all.size(), TRIPLE_CTX(r));
+}
+
+// every probe call in every execution context: explicit errno values, catch handler, destructor during unwinding
+VF_SECTION(context, 4, 4, 180) {
+  r.note("context");
+  set_tz(2);
+  std::vector<Call> calls = mixed_calls();
+  for (const Call& c : duration_calls(false)) calls.push_back(c);
+  for (const Call& c : size_calls(false)) calls.push_back(c);
+  {
+    std::vector<Call> t = time_calls_all();
+    for (size_t i = 0; i < t.size(); i += 5) calls.push_back(t[i]);
+  }
+  static const int errs[] = {0, ERANGE, EINVAL, EINTR, ENOMEM, EAGAIN, EDOM, EOVERFLOW};
+  static const Ctx ctxs[] = {CTX_CATCH, CTX_UNWIND, CTX_NESTED_UNWIND, CTX_THREAD_EACH};
+  for (const Call& c : calls) {
+    for (int e : errs) {
+      if (!r.take()) continue;
+      history_case(r, History{&c}, {CTX_MAIN}, "single call with an explicit errno: as the reference", e);
+    }
+    for (Ctx cx : ctxs) {
+      if (!r.take()) continue;
+      history_case(r, History{&c}, {cx}, "single call in an exception-handling / thread context: as the reference");
+    }
+  }
+  r.bound = vf::fmt("%zu probe calls of all functions x {errno = 0, ERANGE, EINVAL, EINTR, ENOMEM, EAGAIN, EDOM, EOVERFLOW before the call; inside a catch handler; in a destructor during stack unwinding; the same nested in a catch handler; on a fresh thread}", calls.size());
 }
 
 VF_MAIN()
